@@ -234,7 +234,11 @@ class Pair:
     def _run(self, exe, lines, timeout=600, env=None):
         data = "".join(l + "\n" for l in lines)
         try:
-            p = subprocess.run(["/bin/sh", "-c", "ulimit -v 8388608; exec \"$0\"", exe], input=data, stdout=subprocess.PIPE,
+            # address-space cap: 8 GiB for the implementation harness (a mutated implementation may try to allocate
+            # tens of GB); the Lean runtime reserves address space generously and rarely returns it, so the model
+            # driver gets 48 GiB of address space (its resident set stays far below)
+            lim = 8388608 if exe == self.pqh or os.path.basename(exe).startswith("pqh") else 50331648
+            p = subprocess.run(["/bin/sh", "-c", "ulimit -v %d; exec \"$0\"" % lim, exe], input=data, stdout=subprocess.PIPE,
                                stderr=subprocess.PIPE, text=True, timeout=timeout, env=env)
         except subprocess.TimeoutExpired as e:
             out = (e.stdout or b"")
